@@ -2,7 +2,7 @@ CONFIG = dict(
     level="fault_enumeration",
     programs=[("Sim1", "default", 700, 7, 30000, 7), ("Sim2", "default", 1500, 2, 40000, 3),
               ("Sim3", "default", 1500, 2, 40000, 2), ("Sim1", "wide", 300, 2, 10000, 3),
-              ("Sim3", "compound", 0, 0, 10000, 1), ("Sim4", "default", 200, 1, 10000, 1), ("LDAP", "compound", 0, 0, 20000, 2), ("Sim6", "default", 150, 1, 10000, 1)],
+              ("Sim3", "compound", 0, 0, 10000, 1), ("Sim4", "default", 200, 1, 10000, 1), ("LDAP", "compound", 0, 0, 20000, 2), ("Sim6", "default", 150, 1, 10000, 1), ("Sim7", "compound", 300, 1, 20000, 1)],
     budget_quick=60, budget_thorough=1500,
     eval_counter="c14.executions", nontrivial_set="c14.nontrivial_histories",
     rule="history = 2-8 operations over one structure slot (library-allocated or caller-allocated-and-zeroed) drawn from "
